@@ -98,6 +98,17 @@ func (c *conditionLocker) waitIfLock() {
 	c.lockMu.Unlock()
 }
 
+// waitIfLockThen blocks while the locker is locked and then runs f
+// before a concurrent lock() can take effect.
+func (c *conditionLocker) waitIfLockThen(f func()) {
+	c.lockMu.Lock()
+	for c.bLock {
+		c.lockCnd.Wait()
+	}
+	f()
+	c.lockMu.Unlock()
+}
+
 type SecureChannel struct {
 	endpointURL string
 
@@ -661,6 +672,7 @@ func (s *SecureChannel) open(ctx context.Context, instance *channelInstance, req
 		RequestedLifetime:     s.cfg.Lifetime,
 	}
 
+	s.pendingReq.Add(1)
 	return s.sendRequestWithTimeout(ctx, req, reqID, s.openingInstance, nil, s.cfg.RequestTimeout, func(v ua.Response) error {
 		debug.Printf("OpenSecureChannelResponse handler")
 		resp, ok := v.(*ua.OpenSecureChannelResponse)
@@ -913,7 +925,7 @@ func (s *SecureChannel) sendRequestWithTimeout(
 	timeout time.Duration,
 	h ResponseHandler) error {
 
-	s.pendingReq.Add(1)
+	// the caller has already counted this request in s.pendingReq
 	respRequired := h != nil
 
 	ch, err := s.sendAsyncWithTimeout(ctx, req, reqID, instance, authToken, respRequired, timeout)
@@ -977,9 +989,15 @@ func (s *SecureChannel) SendRequest(ctx context.Context, req ua.Request, authTok
 }
 
 func (s *SecureChannel) SendRequestWithTimeout(ctx context.Context, req ua.Request, authToken *ua.NodeID, timeout time.Duration, h ResponseHandler) error {
-	s.reqLocker.waitIfLock()
+	// Count the request as pending atomically with passing the gate: renew()
+	// locks the gate and then waits for pending requests, so a request that
+	// has passed the gate must be visible to it before it picks its channel
+	// instance. Otherwise it sends on the old instance after the renewal has
+	// copied that instance's sequence number.
+	s.reqLocker.waitIfLockThen(func() { s.pendingReq.Add(1) })
 	active, err := s.getActiveChannelInstance()
 	if err != nil {
+		s.pendingReq.Done()
 		return err
 	}
 
